@@ -20,6 +20,7 @@ import (
 	"sort"
 	"strings"
 	"sync"
+	"sync/atomic"
 	"time"
 
 	"github.com/a-h/templ"
@@ -292,12 +293,45 @@ type runOut struct {
 	raceTxt  string
 }
 
-// runTempl executes the CLI once. GORACE: never halt, log to files in logDir.
+// soloMu: ordinary CLI runs share it; a run that hit its watchdog is repeated
+// alone (exclusive), so that a second timeout cannot be blamed on load created
+// by this check itself.
+var soloMu sync.RWMutex
+
+var hangs atomic.Int64
+
+// runTempl executes the CLI once. A run of these small trees takes well under a
+// second; one that exceeds 90 s is repeated alone with a 180 s budget, and only
+// if that also expires is it reported as timed out (the command hangs).
 func runTempl(bin, root, logDir string, cfg runCfg) runOut {
+	if hangs.Load() >= 2 {
+		// the command has already been shown to hang twice (each confirmed by a
+		// solo re-run): do not spend minutes on every further scenario
+		soloMu.RLock()
+		defer soloMu.RUnlock()
+		return runTemplOnce(bin, root, logDir, cfg, 30*time.Second)
+	}
+	soloMu.RLock()
+	ro := runTemplOnce(bin, root, logDir, cfg, 90*time.Second)
+	soloMu.RUnlock()
+	if ro.timedOut {
+		defer func() {
+			if ro.timedOut {
+				hangs.Add(1)
+			}
+		}()
+		soloMu.Lock()
+		ro = runTemplOnce(bin, root, logDir+"-solo", cfg, 180*time.Second)
+		soloMu.Unlock()
+	}
+	return ro
+}
+
+func runTemplOnce(bin, root, logDir string, cfg runCfg, budget time.Duration) runOut {
 	_ = os.MkdirAll(logDir, 0o755)
 	errFile := filepath.Join(logDir, "stderr.txt")
 	ef, _ := os.Create(errFile)
-	ctx, cancel := context.WithTimeout(context.Background(), 5*time.Minute)
+	ctx, cancel := context.WithTimeout(context.Background(), budget)
 	defer cancel()
 	cmd := exec.CommandContext(ctx, bin, cfg.args(root)...)
 	cmd.Dir = filepath.Dir(root)
@@ -387,7 +421,9 @@ func (k *checker) scenario(id string, t treeSpec, cfg runCfg, report bool) (sig 
 	ex := expected(t, cfg)
 	ro := runTempl(k.bin, root, filepath.Join(dir, "log1"), cfg)
 	if ro.timedOut {
-		return "", nil, "templ generate did not finish within 5 minutes (" + fmt.Sprint(cfg) + ")"
+		// the blocked state is not created by load: the run was repeated alone
+		fs = append(fs, finding{"hang", fmt.Sprintf("templ generate did not terminate (90 s, then 180 s running alone) on a tree of %d files (%v); stderr tail: %s", len(t.Files), cfg, corpus.Tail(ro.stderr, 600))})
+		return "", fs, ""
 	}
 	for _, r := range ro.races {
 		fs = append(fs, finding{"race " + r, "race detector report in templ generate: " + r + "\n" + corpus.Tail(ro.raceTxt, 1500)})
@@ -420,7 +456,8 @@ func (k *checker) scenario(id string, t treeSpec, cfg runCfg, report bool) (sig 
 	// second run: contents of every file unchanged, same verdict
 	ro2 := runTempl(k.bin, root, filepath.Join(dir, "log2"), cfg)
 	if ro2.timedOut {
-		return sig, fs, "second templ generate did not finish within 5 minutes"
+		fs = append(fs, finding{"hang", "second templ generate run did not terminate (90 s, then 180 s running alone)"})
+		return sig, fs, ""
 	}
 	for _, r := range ro2.races {
 		fs = append(fs, finding{"race " + r, "race detector report in templ generate (second run): " + r + "\n" + corpus.Tail(ro2.raceTxt, 1500)})
